@@ -94,44 +94,45 @@ def raw_history(rng, nops, size=None, kind=None, bad_resize=False):
     lines = ["new %d %s" % (size, kind)]
     if kind == "dflt":
         lines.append("hash " + hexs(keys[0]))
-    live, cur = [], size
+    ents = []            # keys of the entries in the table, duplicates included (an upper bound after delete_entry)
     for _ in range(nops):
         r = rng.random()
         k = rng.choice(keys)
         if r < 0.36:
-            if k in live and not rng.chance(0.03):
-                absent = [x for x in keys if x not in live]
+            if k in ents and not rng.chance(0.03):
+                absent = [x for x in keys if x not in ents]
                 if not absent:
-                    lines.append("del " + hexs(k)); live.remove(k); continue
+                    lines.append("del " + hexs(k)); ents.remove(k); continue
                 k = rng.choice(absent)
             lines.append("ins %s %d %d" % (hexs(k), rng.randrange(0, 1000), 1 if rng.chance(0.2) else 0))
-            if k not in live:
-                live.append(k)
+            ents.append(k)
         elif r < 0.56:
             lines.append("look " + hexs(k))
         elif r < 0.80:
-            if live and rng.chance(0.8):
-                k = rng.choice(live)
+            if ents and rng.chance(0.8):
+                k = rng.choice(ents)
             lines.append("del " + hexs(k))
-            if k in live:
-                live.remove(k)
-        elif r < 0.85:
-            lines.append("dele %d" % rng.randrange(0, max(1, min(cur, size))))   # index certainly below the current size
-            live = None
-        elif r < 0.89:
+            if k in ents:
+                ents.remove(k)
+        elif r < 0.83:
+            # some slot below the initial size (the size never shrinks here); which key goes is the model's business,
+            # so empty the table afterwards to know its contents again
+            lines.append("dele %d" % rng.randrange(0, size))
+            for x in ents:
+                lines.append("del " + hexs(x))
+            ents = []
+        elif r < 0.88:
             lines.append("len")
         elif r < 0.95:
             lines.append("iter lh")
         else:
-            n = len(live) if live is not None else 16
-            good = rng.choice([2 * n + 2, 2 * n + 3, 4 * n + 1, 3 * n + 7])
+            n = len(ents)
+            good = rng.choice([2 * n + 2, 2 * n + 3, 4 * n + 1, 3 * n + 7])   # the new table does not grow while it is filled
             if bad_resize and rng.chance(0.5):
                 good = rng.choice([1, 1, 2, max(1, n - 1), max(1, n), n + 1])
             lines.append("resize %d" % good)
-        if live is None:        # delete_entry removed a key we do not track: resynchronise on the next ops
-            live = []
-            for x in keys:
-                lines.append("del " + hexs(x))
+            if good < size:
+                size = min(size, good)
     lines.append("free")
     return lines
 
@@ -277,9 +278,9 @@ def gen(rng, tier):
                      "del 616c706861", "look 616c706861", "free"]}
     for c in load_cases(rng, (1 << 16) if quick else (1 << 22), 1 << 12 if quick else 1 << 16):
         yield c
-    for i in range(3000 if quick else 30000):
+    for i in range(3000 if quick else 15000):
         yield {"lines": raw_history(rng, rng.choice([10, 30, 60, 60]), bad_resize=bad), "keep": 1}
-    for i in range(1000 if quick else 10000):
+    for i in range(1000 if quick else 5000):
         yield {"lines": obj_history(rng, rng.choice([10, 30, 60])), "keep": 1}
     # churn
     for kind in ["id", "mod3", "const", "dflt", "perl", "sum"]:
